@@ -194,6 +194,20 @@ def gen(rng, budget, tier):
 from props import gen_tie as _gt
 CANON = dict(globals().get("CANON", {}))
 CANON["gen.agg"] = _gt.canon_agg
-CANON["c15.write"] = _c15.CANON["c15.write"]
+
+
+def _c15_result_only(s):
+    """C05 is about what the report holds, not about how it reaches the disk: of a c15.write observation keep the outfile's and
+    the query file's final content (the order of the file operations and the staging files are C15's subject — a change that
+    reorders them alarmed this check although every result was right; seeded/CROSS.txt)"""
+    import re
+    s = _c15.CANON["c15.write"](s)
+    out, q = re.search(r"(?:^|;)(out=[^;]*)", s), re.search(r";(query=[^;]*)", s)
+    if not s.startswith("ops=") or not out:
+        return s
+    return out.group(1) + ";" + (q.group(1) if q else "") + ";"
+
+
+CANON["c15.write"] = _c15_result_only
 PROJ = dict(globals().get("PROJ", {}))
 PROJ["c15.write"] = _c15.PROJ["c15.write"]
